@@ -29,8 +29,8 @@ CLAIMED["C17"] = {
     "design_ref": "7 (C17)",
 }
 CLAIMED["C02"] = {
-    "technique": "Coq proofs about a hand model of the jerr location arithmetic (totality on index <= len, line/line-beginning/line-end/quote specifications, no unsigned wrap), exhaustive extracted-model vs implementation correspondence; include-trace and directive-span clauses by core-model correspondence",
-    "text": "For every content and every index within the file the model never panics and line/quote agree with the index (theorems); model and jerr.NewLocation are compared on all contents over {a,space,tab,CR,LF} up to the bound at every index.",
+    "technique": "Coq proofs about a hand model of the jerr location arithmetic (totality on index <= len, line/line-beginning/line-end/quote specifications, no unsigned wrap), exhaustive extracted-model vs implementation correspondence; on the core model: every scan-stage diagnostic names an opened project file and an index inside it, every include-trace entry names a project file and an offset where INCLUDE really stands, the trace is exactly the scanner-stack chain when no file has two INCLUDEs (refuted otherwise: the recorded finding); project stage with computed expectations (include chains, type chains, path-property faults)",
+    "text": "25 theorems. For every content and every index within the file the model never panics and line/quote agree with the index; 10 theorems on diagnostics and include traces of the core model; model and jerr.NewLocation are compared on all contents over {a,space,tab,CR,LF} up to the bound at every index.",
     "note": "Trusted: Coq kernel, extraction + OCaml driver, harness. Known finding: stale include-tracer cache (trace line of the first INCLUDE of the same includer).",
     "design_ref": "7 (C02)",
 }
@@ -57,13 +57,13 @@ CLAIMED["C15"] = {
 
 CLAIMED["C14"] = {
     "technique": "Coq metatheory proved once for any scanner table (stack discipline, begin/end pairing, found/foundAt offsets, rewinds, termination potential) + finite obligation table_ok discharged by vm_compute on the 160 step functions regenerated from scanner/*.go by go2coq; lexeme-stream correspondence of the extracted scanner model against scanner.NewJApiScanner().Next()",
-    "text": "lexemes_in_bounds_and_ordered and no_content_dropped (every byte outside the lexemes was consumed in a state that may skip it: blanks, line ends, comment text, annotation delimiters - two further checkers trivia_ok and pend_ok decided on the regenerated table + their own metatheory; no side condition), keywords_spelled_table (the keyword states spell exactly the directive table\'s keywords and the codes 100..599; table level) hold for every byte string and every len-sane schema library; keyword spelling and body = one library value are decided by the executable statement on the implementation's streams (token-alphabet enumeration, every prefix of every body token in every body-reading state, fixture prefixes, mutations) with the model agreeing lexeme for lexeme.",
+    "text": "lexemes_in_bounds_and_ordered and no_content_dropped (every byte outside the lexemes was consumed in a state that may skip it: blanks, line ends, comment text, annotation delimiters - two further checkers trivia_ok and pend_ok decided on the regenerated table + their own metatheory; no side condition), keywords_spelled (the bytes of every Keyword lexeme are a keyword of the regenerated directive table or a response code in range: a fourth checker spell_ok + metatheory) hold for every byte string and every len-sane schema library; keyword spelling and body = one library value are decided by the executable statement on the implementation's streams (token-alphabet enumeration, every prefix of every body token in every body-reading state, fixture prefixes, mutations) with the model agreeing lexeme for lexeme.",
     "note": "Trusted: Coq kernel + vm_compute, go2coq (step functions -> decision trees), the hand-written driver model coq/model/ScannerSem.v (tied by correspondence), extraction, harness, the schema library as Len() oracle (hypothesis len_sane). The typing inference is untrusted (only checked).",
     "design_ref": "5.2, 7 (C14)",
 }
 CLAIMED["C01"] = {
-    "technique": "Coq theorem scan_total (no empty-stack Pop, no underflow, no out-of-range index/slice, bounded re-dispatch, termination by a potential function) for the regenerated scanner table; crash/hang search of the whole pipeline in isolated subprocesses with the model-predicted hostile shapes (include graphs, macro graphs, deep nesting)",
-    "text": "The scanner half is a theorem for all byte strings; the core/catalog half is decided by the correspondence of the core model (directive tree, includes, macros) plus subprocess runs that observe panics, fatal stack overflows, hangs and runtime faults reported as diagnostics.",
+    "technique": "Coq theorems scan_total (no empty-stack Pop, no underflow, no out-of-range index/slice, bounded re-dispatch, termination by a potential function) for the regenerated scanner table and pipeline_total (context resolution, macro expansion and the catalog build of the core/catalog models end in a catalog or a diagnostic for every item sequence: no panic site is reachable on admissible forests, expansion preserves admissibility); crash/hang search of the whole pipeline in isolated subprocesses with the model-predicted hostile shapes (include graphs, macro graphs, deep nesting)",
+    "text": "6 theorems: the scanner half for all byte strings, the core/catalog half for all item sequences on the hand models (tied by correspondence); the implementation itself is run in subprocesses that observe panics, fatal stack overflows, hangs and runtime faults reported as diagnostics.",
     "note": "Trusted: as C14; Go runtime stack limits and the schema library's own totality are observed, not proved. Known finding: exponential macro expansion (not prompt).",
     "design_ref": "7 (C01)",
 }
@@ -116,7 +116,7 @@ CLAIMED["C12"] = {
 
 CLAIMED["C05"] = {
     "technique": "Coq proofs on the scanner table regenerated from scanner/steps*.go: no state distinguishes CR from LF or space from tab (for every configuration and oracle, lifted from a decision over all states), blanks and line ends are inert in the 18 between-directive / before-body states, a comment is opened by saving the interrupted state, read without any event or change but the read position, and its line end is handed to the restored state (line_comment_skipped for comment text of any length); the remaining part of the property (invariance of later stages under the position shift, block comments as a whole, quoting, parentheses) is decided by metamorphic runs: generated API models rendered under random trivia plans and fixtures under text-level rewritings must give the same verdict and byte-identical JSON",
-    "text": "21 theorems: 8 about the step semantics over the translated scanner table, 8 saying that blanks inserted where the scanner is in a shift state only shift the later lexemes (look-back typing of the table checked by computation + a translation relation between runs; the run up to the insertion point is a premise) and 5 about the core model (context resolution and macro expansion depend on directive shapes only, so a change of layout cannot change the forest) - partial: see the props file; metamorphic correspondence of the implementation with itself under all listed rewritings on generated and fixture documents every run.",
+    "text": "29 theorems: 8 about the step semantics over the translated scanner table, 16 saying that blanks or a whole comment line inserted (or removed) where the scanner is in a shift state only shift the later lexemes (look-back typing of the table checked by computation + a translation relation between runs; at the start of a line the run on the longer input is derived under a stated locality hypothesis on earlier oracle calls) and 5 about the core model (context resolution and macro expansion depend on directive shapes only, so a change of layout cannot change the forest) - partial: see the props file; metamorphic correspondence of the implementation with itself under all listed rewritings on generated and fixture documents every run.",
     "note": "Trusted: Coq kernel, go2coq (scanner table translator), the document generator/renderer (verifsys/gendoc, self-checked every run), harness. Partial: see the header of coq/props/C05.v for what is proved and what is only explored. Known findings: bare '#' next to a body and block comment + directive on one line after a body (schema library).",
     "design_ref": "7 (C05)",
 }
@@ -130,14 +130,14 @@ CLAIMED["C11"] = {
 
 CLAIMED["C04"] = {
     "technique": "Coq proofs over the catalog skeleton model: for every accepted expanded forest the key lists of the catalog are exactly the declaring directives in pre-order (servers, types, enums with a body, declared tags first then automatic tags in order of first use, interactions = the ids made by the method directives, each made by exactly one directive), each interaction's annotation, description, query, request presence, response codes in order, params/result are the fold of the content directives that resolve to it, info/jsight come from their directives (catalog_keys, every_method_makes_an_interaction, content_faithful, info_faithful); tied to the code by skeleton correspondence, and decided on the implementation by model-first generation: abstract API models are generated first, the expected catalog is computed from the MODEL (gendoc.expect.catalog_of) and compared with the skeleton of the implementation's JSON",
-    "text": "10 theorems for all forests on coq/model/Catalog.v (incl. full_content_faithful: provenance of request/response bodies and headers); generated API models: every rendering must be accepted and its JSON skeleton must equal the expectation computed from the abstract model; the extracted Coq model is run on the same documents.",
+    "text": "12 theorems for all forests on coq/model/Catalog.v (incl. full_content_faithful: provenance of request/response bodies and headers; INFO and TAG descriptions); generated API models: every rendering must be accepted and its JSON skeleton must equal the expectation computed from the abstract model; the extracted Coq model is run on the same documents.",
     "note": "Trusted: Coq kernel, extraction + OCaml driver, harness, the generator's expectation function (self-checked by round trips every run). Schema CONTENT (the children of a schema) is the schema library's; the skeleton carries notation, format, type references. Partial: provenance of request/response bodies and headers, INFO/TAG descriptions are not traced by a theorem (format by C09).",
     "design_ref": "7 (C04)",
 }
 
 CLAIMED["C10"] = {
     "technique": "Coq proofs: the name-collecting passes (enums, tags, duplicate types) give the same verdict and permuted results under any permutation of the forest (closed-form criterion), the catalog fold over declaration directives (SERVER/TYPE/TAG/ENUM) is order free up to the order of the entries, allOf inheritance renders every type identically under any permutation of the TYPE directives (heap model), the macro recursion check's verdict is a property of the paste graph; the refuted part (usedUserTypes lists) is a witness theorem and a recorded finding; the rest of the property (URL/method trees, path variables, whole pipeline) is decided by metamorphic runs: generated API models rendered in a random permutation of their top-level blocks, also after macro-ization, must give the same verdict, equal entries and the permuted order",
-    "text": "11 theorems (8 partial by name) on the catalog, allOf and macro models + metamorphic correspondence of the implementation with itself under permutation on generated documents every run.",
+    "text": "15 theorems (9 partial by name) on the catalog, allOf and macro models + metamorphic correspondence of the implementation with itself under permutation on generated documents every run.",
     "note": "Trusted: Coq kernel, the document generator and its permutation/expectation functions (self-checked), harness. Partial: see the header of coq/props/C10.v. Known finding: usedUserTypes of allOf chains depend on the declaration order (fixtures pin one order).",
     "design_ref": "7 (C10)",
 }
